@@ -240,6 +240,15 @@ func replaySim(r *ev.Run, ti int, t *trace) bool {
 				} else {
 					ok = check(i+1, st, st.Name)
 				}
+			case "RenameInbox":
+				res := rg.session(st.S).Cmd("RENAME INBOX " + st.Name)
+				rg.logf("[%s] RENAME INBOX %s -> %s", st.S, st.Name, res.Status)
+				if res.Status != "OK" {
+					r.Machinery("validity behaviour %d: RENAME INBOX %s answered %s %s", ti, st.Name, res.Status, res.Text)
+					ok = false
+				} else {
+					ok = check(i+1, st, st.Name)
+				}
 			case "CreateRefused":
 				res := rg.session(st.S).Cmd("CREATE " + st.Name)
 				rg.logf("[%s] CREATE %s (exists) -> %s", st.S, st.Name, res.Status)
@@ -384,12 +393,16 @@ func runTraces(r *ev.Run, traces []*trace) bool {
 			st := &t.Steps[i]
 			c := rg.session(st.S)
 			switch st.Act {
-			case "Create", "CreateRefused":
-				res := c.Cmd("CREATE " + name(st.Name))
-				rg.logf("[%s] CREATE %s -> %s", st.S, name(st.Name), res.Status)
-				want := map[string]string{"Create": "OK", "CreateRefused": "NO"}[st.Act]
+			case "Create", "CreateRefused", "RenameInbox":
+				cmd := "CREATE " + name(st.Name)
+				if st.Act == "RenameInbox" {
+					cmd = "RENAME INBOX " + name(st.Name)
+				}
+				res := c.Cmd(cmd)
+				rg.logf("[%s] %s -> %s", st.S, cmd, res.Status)
+				want := map[string]string{"Create": "OK", "CreateRefused": "NO", "RenameInbox": "OK"}[st.Act]
 				if res.Status != want {
-					r.Machinery("validity (all) behaviour %d step %d: CREATE answered %s %s, the specification says %s", ti, i+1, res.Status, res.Text, want)
+					r.Machinery("validity (all) behaviour %d step %d: %s answered %s %s, the specification says %s", ti, i+1, cmd, res.Status, res.Text, want)
 					return false
 				}
 				v, err := rg.validity(name(st.Name))
@@ -398,7 +411,7 @@ func runTraces(r *ev.Run, traces []*trace) bool {
 					return false
 				}
 				rg.logf("  %s has UIDVALIDITY %d (highest before: %d)", name(st.Name), v, best)
-				if (st.Act == "Create" && v <= best) || (st.Act == "CreateRefused" && v != best) {
+				if (st.Act != "CreateRefused" && v <= best) || (st.Act == "CreateRefused" && v != best) {
 					r.Violate("C04/validity-not-greater/"+st.Act+"/two-sessions", fmt.Sprintf("step %d %s by %s: the name %s has UIDVALIDITY %d, its highest value before was %d\nbehaviour (sessions s1 and s2 of one server, no restart):\n  %s", i+1, st.Act, st.S, name(st.Name), v, best, strings.Join(rg.log, "\n  ")),
 						map[string]interface{}{"validity_trace": t, "validity_history": traces[:ti+1]})
 					return true
